@@ -664,9 +664,107 @@ fn cert_order_sweep(report: &Report, tier: Tier) -> Value {
     json!(out)
 }
 
+/// The leader's slice-filling routine (the real `produce_slice_payload`, through a hook) on client
+/// transactions of every size: 61 full-size transactions, then one of every size 0..=513, then a
+/// second one from a boundary menu, then full-size ones again - with and without a parent in the
+/// slice. Slices are produced until the queue is empty. No call may panic, no payload may exceed
+/// what a slice holds (the producer `expect`s shredding to succeed), every produced slice must be
+/// accepted by the real shredder, and the transactions within the size limit come out again in
+/// order, each exactly once.
+fn slice_filling_sweep(report: &Report, tier: Tier) -> usize {
+    use alpenglow::consensus::verif::verif_produce_slice_payload;
+    use alpenglow::shredder::{MAX_DATA_PER_SLICE, RegularShredder, Shredder};
+    use alpenglow::types::Slice;
+    let second_menu: Vec<usize> = tier.pick(vec![0, 1, 503, 504, 505, 511, 512], (0..=8).chain(496..=513).collect());
+    let firsts: Vec<usize> = (0..=513).collect();
+    let lsk = crate::bsdrv::leader_key();
+    let cases = std::sync::atomic::AtomicUsize::new(0);
+    firsts.par_iter().for_each(|d1| {
+        let rt = tokio::runtime::Builder::new_current_thread().enable_all().start_paused(true).build().unwrap();
+        let mut shredder = RegularShredder::default();
+        for d2 in &second_menu {
+            for with_parent in [false, true] {
+                for lead in [61usize, 60, 0] {
+                    cases.fetch_add(1, std::sync::atomic::Ordering::Relaxed);
+                    let mut sizes: Vec<usize> = vec![512; lead];
+                    sizes.extend([*d1, *d2, 512, 512, 512]);
+                    let txs: Vec<Transaction> = sizes.iter().enumerate().map(|(i, l)| Transaction(vec![(i as u8).wrapping_mul(37).wrapping_add(1); *l])).collect();
+                    let want: Vec<Vec<u8>> = txs.iter().filter(|t| t.0.len() <= alpenglow::MAX_TRANSACTION_SIZE).map(|t| t.0.clone()).collect();
+                    let replay = json!({"oracle": "slice-filling", "transaction_sizes": format!("{lead} x 512, {d1}, {d2}, 3 x 512"), "slice_carries_parent": with_parent});
+                    let parent: Option<BlockId> = if with_parent { Some((Slot::new(3), bh("slice-parent"))) } else { None };
+                    let r = catch(std::panic::AssertUnwindSafe(|| {
+                        rt.block_on(async {
+                            let (net, _out, tx_in) = crate::c14::endpoint::<Transaction, Transaction>();
+                            for t in &txs {
+                                tx_in.send(t.clone()).unwrap();
+                            }
+                            let mut payloads: Vec<Vec<u8>> = Vec::new();
+                            // enough calls to drain the queue; an empty queue ends a call at its deadline
+                            for _ in 0..6 {
+                                let (p, _left) = verif_produce_slice_payload(&net, parent.clone(), Duration::from_millis(400)).await;
+                                payloads.push(Vec::<u8>::from(p));
+                            }
+                            payloads
+                        })
+                    }));
+                    let payloads = match r {
+                        Err(p) => {
+                            report.violation("C10:block-producer-panics-on-client-transactions".to_string(), format!("transactions of sizes {lead} x 512, {d1}, {d2}, 3 x 512 (parent in slice: {with_parent}): {p:.160}"), replay);
+                            continue;
+                        }
+                        Ok(p) => p,
+                    };
+                    let mut got: Vec<Vec<u8>> = Vec::new();
+                    let mut bad: Option<String> = None;
+                    for (k, bytes) in payloads.iter().enumerate() {
+                        if bytes.len() > MAX_DATA_PER_SLICE {
+                            bad = Some(format!("slice {k} carries {} bytes, a slice holds at most {MAX_DATA_PER_SLICE}", bytes.len()));
+                            break;
+                        }
+                        // Option<BlockId> | u64 data length | u64 count | (u64 length, bytes)*
+                        let mut o = if bytes.first() == Some(&1) { 1 + 8 + 32 } else { 1 };
+                        let rd = |o: &mut usize| -> Option<u64> { let v = bytes.get(*o..*o + 8)?; *o += 8; Some(u64::from_le_bytes(v.try_into().unwrap())) };
+                        let parsed = (|| {
+                            let dlen = rd(&mut o)? as usize;
+                            if o + dlen != bytes.len() { return None; }
+                            let n = rd(&mut o)?;
+                            for _ in 0..n {
+                                let l = rd(&mut o)? as usize;
+                                got.push(bytes.get(o..o + l)?.to_vec());
+                                o += l;
+                            }
+                            if o == bytes.len() { Some(()) } else { None }
+                        })();
+                        if parsed.is_none() {
+                            bad = Some(format!("slice {k} ({} bytes) is not a well-formed payload", bytes.len()));
+                            break;
+                        }
+                        // the producer shreds exactly this and expects success
+                        let data_off = if with_parent { 1 + 8 + 32 + 8 } else { 1 + 8 };
+                        let slice = Slice { slot: Slot::new(4), slice_index: crate::c11::slice_index(k), is_last: false, parent: parent.clone(), data: bytes[data_off..].to_vec() };
+                        if let Err(e) = shredder.shred(&slice, &lsk) {
+                            bad = Some(format!("slice {k} ({} bytes) is refused by the shredder: {e:?}", bytes.len()));
+                            break;
+                        }
+                    }
+                    if bad.is_none() && got != want {
+                        bad = Some(format!("{} transactions within the size limit went in, {} came out (or in another order)", want.len(), got.len()));
+                    }
+                    if let Some(b) = bad {
+                        report.violation("C10:block-producer-mishandles-client-transactions".to_string(), format!("transactions of sizes {lead} x 512, {d1}, {d2}, 3 x 512 (parent in slice: {with_parent}): {b}"), replay);
+                    }
+                }
+            }
+        }
+    });
+    cases.load(std::sync::atomic::Ordering::Relaxed)
+}
+
 pub fn run(tier: Tier) -> i32 {
     let report = Report::new("C10", tier, "fault_enumeration");
     let cert_orders = cert_order_sweep(&report, tier);
+    let filling_cases = slice_filling_sweep(&report, tier);
+    println!("  slice filling sweep: {filling_cases} transaction sequences");
     let udp_cases = udp_interface_sweep(&report);
     println!("  udp interface sweep: {udp_cases} datagrams");
     let total_ms = 12_000u64;
@@ -748,6 +846,8 @@ pub fn run(tier: Tier) -> i32 {
         "rule": "4 real Alpenglow nodes + 1 attacker validator (19% stake, own leader windows) in virtual time; each hostile item of the menu (attacker-signed votes at edge slots incl. u64::MAX and the 2-epoch boundary, slashable pairs, unknown signers, replayed and mutated certificates, validly signed malformed blocks for the attacker's own next window and for a far-future window, contradictory last flags in both orders, conflicting slices, equivocation in the last window of the slot space, slice index 1023, raw slices with odd / zero / over-long / mixed shard sizes and non-codeword coding shreds under a validly signed root, tag-flipped / corrupted genuine shreds, shreds for the victim's own window, repair requests with unknown senders and boundary indices, unsolicited / mismatched repair responses, transactions of 0/512/513/1480 bytes, floods of large ones and floods of thousands of 0/1-byte ones, garbage on all five interfaces) is injected alone at each phase (thorough: also ordered pairs across classes), plus the scripted hand-over equivocation of the attacker as previous leader; afterwards no task may have panicked and the victim must still vote, answer repair requests and finalize like the undisturbed run; every (item, phase) run is distinct and non-trivial; in addition the real UdpNetwork receive path (recvmmsg) on the loopback device gets datagrams of 23 sizes from 0 to 65000 bytes (around the 1500-byte receive buffer in particular) x 3 fill patterns between two honest votes, both of which must still be delivered",
         "exhaustive": true,
         "certificate_order_sweep": cert_orders,
+        "slice_filling_sequences": filling_cases,
+        "slice_filling_rule": "the real produce_slice_payload (hook) fed {61, 60, 0} full-size transactions, one of every size 0..=513, one from a boundary menu, three full-size ones, with and without a parent in the slice; slices produced until the queue is empty; no panic, no payload above the slice limit, every payload shreds, transactions within the limit come out once and in order",
         "menu_items": attacks.len(),
         "phases_ms": phases,
         "baseline_victim_finalized": baseline_fin,
